@@ -61,9 +61,9 @@ CHECKS['C19'] = dict(
 
 CHECKS['C20'] = dict(
 	category='exploration', design_ref='DESIGN.md 4.9',
-	technique='seeded operation histories on the mutable list-backed collection against a reference list model, with NumPy object-array indexing as selection model; no fault kinds exist for this property',
+	technique='seeded operation histories on the mutable list-backed collection against a reference list model, with NumPy object-array indexing as selection model; one fault kind (a file-backed read that fails once)',
 	text='Claimed for the history half of the quantifier only: seeded sequences of up to 30 list mutations (incl. out-of-range positions, which must raise exactly as a list does) interleaved with observation rounds on the list-backed, the in-memory concatenated and a re-loaded file-backed collection. '
-	     'The index-expression half is evaluated only as the observations of those histories - for it the check is a generator with a model, not something simulation decides. No fault, schedule or clock exists for this property (fault_kinds_fired is empty by construction).',
+	     'The index-expression half is evaluated only as the observations of those histories - for it the check is a generator with a model, not something simulation decides. No schedule or clock exists for this property; the only faults are a file-backed read failing once (I/O error / KeyboardInterrupt) and the snapshot file being replaced on disk while an earlier view is open.',
 	note='Trusts: Python list semantics and NumPy object-array indexing as reference models; IndexError and TypeError are both accepted for ill-typed/out-of-range indices; tuples, 0-d arrays, remove()/index() not generated.')
 
 CHECKS['C18'] = dict(
